@@ -398,6 +398,32 @@ func FSOpen(p string) (*os.File, error) {
 	return f, err
 }
 
+// FSOpenFile: os.OpenFile with explicit flags - a mutation of the path when it may create,
+// truncate or write, a read otherwise; like FSCreate / FSOpen the open is the visible operation.
+func FSOpenFile(p string, flag int, perm os.FileMode) (*os.File, error) {
+	if Cur == nil {
+		return os.OpenFile(p, flag, perm)
+	}
+	if flag&(os.O_WRONLY|os.O_RDWR|os.O_CREATE|os.O_TRUNC|os.O_APPEND) == 0 {
+		t := fsOp("open", rd(p))
+		var f *os.File
+		err := opFault("open", p)
+		if err == nil {
+			f, err = os.OpenFile(p, flag, perm)
+		}
+		fsDone(t, "open", fmt.Sprint(p, err == nil), false, []string{p}, err)
+		return f, err
+	}
+	t := fsOp("create", mut(p))
+	var f *os.File
+	err := opFault("create", p)
+	if err == nil {
+		f, err = os.OpenFile(p, flag, perm)
+	}
+	fsDone(t, "create", fmt.Sprint(p, flag, err == nil), true, []string{p}, err)
+	return f, err
+}
+
 // FSTempFile: deterministic name per (execution, counter) below TmpRoot.
 var TmpRoot = os.TempDir()
 
